@@ -62,16 +62,15 @@ def check_sites(ctx, D, side, reach, rule):
     """every panic-capable site of the bodies in `reach` is discharged by the engine or covered by a reviewed entry valid for ctx.prop"""
     P = ctx.P
     counts = {}
-    seen_keys = {}
     n_sites = n_dis = 0
     by_rule = {}
+    open_sites = []      # (body, site, key, hash)
     for r in reach:
         b = P.bodies[r]
         if "__static_ref_initialize" in r or "::__stability" in r:
             # lazy_static initialisers: constant metric registrations, run once, no input reaches them
             for s in oblig.sites_of(P, b):
                 n_sites += 1
-                consts_only = all("k" in a for _, tm in b.calls() for a in tm["args"] if op_place(a) is None) and True
                 ctx.ok(rule, "init:%s" % s.what, ctx.where(b, s.span), "lazy_static initialiser: registration with constant arguments, independent of any input")
             continue
         ss = oblig.sites_of(P, b)
@@ -89,24 +88,36 @@ def check_sites(ctx, D, side, reach, rule):
                 ctx.ok(rule, "%s:%s:%s" % (s.kind, d[0], _short(P, D, s)), ctx.where(b, s.span), d[1])
                 continue
             key = oblig.site_key(P, D, s)
-            h = key.rsplit("#", 1)[1]
-            counts[h] = counts.get(h, 0) + 1
-            seen_keys[h] = (key, b, s)
-            ent = next((e for e in RV.REVIEWED.get(h, ()) if ctx.prop in e["props"]), None)
-            if ent is not None and counts[h] <= ent.get("count", 1):
-                void = [c for c in ent.get("requires", ()) if not side.holds(c)]
-                if void:
-                    ctx.bad(rule, "reviewed-but-side-condition-failed:%s" % key, ctx.where(b, s.span),
-                            "this site is safe only while %s holds, and that rule fails on this tree" % ", ".join(void))
-                else:
-                    ctx.ok(rule, "reviewed:%s:%s" % (ent["class"], key), ctx.where(b, s.span), ent["why"])
-                continue
-            pr = D.prover(b)
-            n = len(b.blocks[s.bb]["stmts"])
-            ops = [show(oblig.canon(pr.T.operand(o, s.bb, n)))[:120] for o in s.ops[:2]]
-            ctx.bad(rule, "undischarged:%s" % key, ctx.where(b, s.span),
-                    "%s can panic here and neither a dominating guard, a value range, a verified invariant nor a reviewed reason rules it "
-                    "out (operands: %s)%s" % (s.what, "; ".join(ops), "; more sites of this shape than were reviewed" if ent is not None else ""))
+            open_sites.append((b, s, key, key.rsplit("#", 1)[1]))
+    observed = {h for _, _, _, h in open_sites}
+    for b, s, key, h in open_sites:
+        counts[h] = counts.get(h, 0) + 1
+        ent = next((e for e in RV.REVIEWED.get(h, ()) if ctx.prop in e["props"]), None)
+        moved = False
+        if ent is None:
+            # the construct may have been reviewed under another name: its function or one of its locals was renamed.  Accept the
+            # entry of the same name-free shape only if that entry's own site no longer exists anywhere (so it cannot be lent to a
+            # second, new construct) and the candidates agree on the reason.
+            lk = oblig.loose_key(P, D, s)
+            cands = [(h2, e) for h2, es in RV.REVIEWED.items() if h2 not in observed for e in es if e.get("loose") == lk and ctx.prop in e["props"]]
+            if cands and len({(e["class"], e["why"]) for _, e in cands}) == 1:
+                ent, moved = cands[0][1], True
+                counts[h] = counts.get(("moved", cands[0][0]), 0) + 1
+                counts[("moved", cands[0][0])] = counts[h]
+        if ent is not None and counts[h] <= ent.get("count", 1):
+            void = [c for c in ent.get("requires", ()) if not side.holds(c)]
+            if void:
+                ctx.bad(rule, "reviewed-but-side-condition-failed:%s" % key, ctx.where(b, s.span),
+                        "this site is safe only while %s holds, and that rule fails on this tree" % ", ".join(void))
+            else:
+                ctx.ok(rule, "reviewed:%s:%s%s" % (ent["class"], key, ":re-keyed" if moved else ""), ctx.where(b, s.span), ent["why"])
+            continue
+        pr = D.prover(b)
+        n = len(b.blocks[s.bb]["stmts"])
+        ops = [show(oblig.canon(pr.T.operand(o, s.bb, n)))[:120] for o in s.ops[:2]]
+        ctx.bad(rule, "undischarged:%s" % key, ctx.where(b, s.span),
+                "%s can panic here and neither a dominating guard, a value range, a verified invariant nor a reviewed reason rules it "
+                "out (operands: %s)%s" % (s.what, "; ".join(ops), "; more sites of this shape than were reviewed" if ent is not None else ""))
     return n_sites, n_dis, by_rule
 
 
